@@ -3745,7 +3745,10 @@ class FuncS(ValueFunc):
                     "Cannot parse expression {" + variable + "}: " + e.msg,
                     pos,
                 )
-            value = node.evaluate(environment).asString().value
+            value = node.evaluate(environment)
+            # a number is padded with zeroes between its sign and its digits
+            numeric = value.isNumerical() or base != 10 or digits != -1
+            value = value.asString().value
             try:
                 if base != 10:
                     value = f"{int(value):x}"
@@ -3765,6 +3768,8 @@ class FuncS(ValueFunc):
             try:
                 if leading:
                     value = value.rjust(width)
+                elif zeroes and numeric and value.startswith("-"):
+                    value = "-" + value[1:].rjust(width - 1, "0")
                 elif zeroes:
                     value = value.rjust(width, "0")
                 else:
